@@ -306,6 +306,15 @@ def m_str_eq(ctx, args, callee):
     return Not(r) if callee.endswith('::ne') else r
 
 
+@model(r'^<T as (Ord|PartialOrd)>::(cmp|partial_cmp)$', 'generic_T_cmp')
+def m_generic_t_cmp(ctx, args, callee):
+    """a generic T: Ord inside a crate function, resolved by the run-time value (the searcher instantiates T = String)"""
+    a = ctx.deref(args[0])
+    if isinstance(a, Str):
+        return m_str_cmp(ctx, args, callee.replace('<T as', '<std::string::String as'))
+    raise Unmodelled('<T as Ord>::cmp on %r' % (type(a).__name__,))
+
+
 @model(r'^<(&?)(std::string::String|str|&str) as (Ord|PartialOrd)>::(cmp|partial_cmp)$', 'str_cmp')
 def m_str_cmp(ctx, args, callee):
     """byte-lexicographic order of strings"""
@@ -317,6 +326,23 @@ def m_str_cmp(ctx, args, callee):
         x, y = a.s.encode(), b.s.encode()
         r = EnumV(-1 if x < y else (0 if x == y else 1), {}, 'Ordering')
         return some(r) if 'partial_cmp' in callee else r
+    if hasattr(a, 'bv') and hasattr(b, 'bv') and not (a.signed or b.signed or a.pre or a.suf or b.pre or b.suf):
+        # decimal renderings of two unsigned values: pad both to 20 digits on the right, then the shorter one first
+        def digits(x):
+            w = x.size(); d = BitVecVal(1, 8)
+            for k in range(1, 20):
+                if 10 ** k < (1 << w):
+                    d = If(z3.UGE(x, BitVecVal(10 ** k, w)), BitVecVal(k + 1, 8), d)
+            return d
+
+        def scaled(x, nd):
+            w = x.size(); x128 = z3.ZeroExt(128 - w, x); r = x128
+            for k in range(1, 20):
+                r = If(nd == k, x128 * BitVecVal(10 ** (20 - k), 128), r)
+            return r
+        da, db = digits(a.bv), digits(b.bv)
+        sa, sb = scaled(a.bv, da), scaled(b.bv, db)
+        return mk(Or(ULT(sa, sb), And(sa == sb, ULT(da, db))), And(sa == sb, da == db))
     if isinstance(a, SpecialStr) or isinstance(b, SpecialStr):
         raise Unmodelled('string order of symbolic numerals')
     if (a.tab is not None or a.s is not None) and (b.tab is not None or b.s is not None):
@@ -2027,10 +2053,32 @@ class Map:
     def get(self, ctx, k):
         return self._lookup(ctx, k)
 
-    def ordered_keys(self):
+    def ordered_keys(self, ctx=None):
         ks = list(self.d.keys())
         if self.kind.startswith('BTree'):
-            ks.sort()
+            cmpf = None
+            if ctx is not None and ks:
+                k0 = ctx.deref(self.keys[ks[0]])
+                ty = getattr(k0, 'ty', None)
+                if isinstance(k0, Agg) and ty:
+                    fl = ctx.prog.by_trait.get(('Ord', ty, 'cmp'))
+                    cmpf = fl[0] if fl else None
+            if cmpf is None:
+                ks.sort()
+            else:
+                # a crate type with its own Ord: the tree is ordered by the REAL comparison (run from MIR; a symbolic verdict forks)
+                import functools
+
+                def c(a, b):
+                    r = ctx.call_fn(cmpf, [Ref(Cell(self.keys[a])), Ref(Cell(self.keys[b]))])
+                    d = r.d if isinstance(r.d, int) else conc(r.d)
+                    if d is None:
+                        d = ctx.concretize(r.d, [(1 << 64) - 1, 0, 1])
+                    d = d - (1 << 64) if d >= (1 << 63) else d
+                    if d >= 128:
+                        d -= 256
+                    return d
+                ks.sort(key=functools.cmp_to_key(c))
         return ks
 
     def _sym_guard(self):
@@ -2040,14 +2088,14 @@ class Map:
     def iter_refs(self, ctx):
         self._sym_guard()
         if self.kind.endswith('Set'):
-            return ListIter([Ref(Cell(self.keys[k])) for k in self.ordered_keys()])
-        return ListIter([Agg([Ref(Cell(self.keys[k])), Ref(self.d[k])]) for k in self.ordered_keys()])
+            return ListIter([Ref(Cell(self.keys[k])) for k in self.ordered_keys(ctx)])
+        return ListIter([Agg([Ref(Cell(self.keys[k])), Ref(self.d[k])]) for k in self.ordered_keys(ctx)])
 
     def into_iter(self, ctx):
         self._sym_guard()
         if self.kind.endswith('Set'):
-            return ListIter([self.keys[k] for k in self.ordered_keys()])
-        return ListIter([Agg([self.keys[k], self.d[k].v]) for k in self.ordered_keys()])
+            return ListIter([self.keys[k] for k in self.ordered_keys(ctx)])
+        return ListIter([Agg([self.keys[k], self.d[k].v]) for k in self.ordered_keys(ctx)])
 
     def length(self, ctx):
         return BitVecVal(len(self.d) + len(self.sym), 64)
@@ -2191,16 +2239,16 @@ def m_map_values(ctx, args, callee):
     if hasattr(m, 'm_values'):
         return m.m_values(ctx)
     if 'into_values' in callee:
-        return ListIter([m.d[k].v for k in m.ordered_keys()])
-    return ListIter([Ref(m.d[k]) for k in m.ordered_keys()])
+        return ListIter([m.d[k].v for k in m.ordered_keys(ctx)])
+    return ListIter([Ref(m.d[k]) for k in m.ordered_keys(ctx)])
 
 
 @model(r'^' + _MAPS + r'::keys$|^' + _MAPS + r'::into_keys$')
 def m_map_keys(ctx, args, callee):
     m = as_map(ctx, args[0])
     if 'into_keys' in callee:
-        return ListIter([m.keys[k] for k in m.ordered_keys()])
-    return ListIter([Ref(Cell(m.keys[k])) for k in m.ordered_keys()])
+        return ListIter([m.keys[k] for k in m.ordered_keys(ctx)])
+    return ListIter([Ref(Cell(m.keys[k])) for k in m.ordered_keys(ctx)])
 
 
 class EntryV:
